@@ -133,6 +133,16 @@ func containerDesc(v ssa.Value, recv ssa.Value, depth int) string {
 			if d := containerDesc(x, recv, depth+1); d != "?" {
 				return d
 			}
+		case *ssa.Call:
+			if bi, ok := x.Call.Value.(*ssa.Builtin); ok && bi.Name() == "append" {
+				if d := containerDesc(x, recv, depth+1); d != "?" {
+					return d
+				}
+			}
+		case *ssa.Extract:
+			if d := containerDesc(x, recv, depth+1); d != "?" {
+				return d
+			}
 		}
 	}
 	return "?"
@@ -192,6 +202,26 @@ func readDesc(v ssa.Value, recv ssa.Value, loops []*Loop, depth int) string {
 			if x.Len == v {
 				set(6, "len("+containerDesc(x, recv, 0)+")")
 			}
+		case *ssa.Call:
+			// io.ReadAll(io.LimitReader(r, n)): n is the length of what ReadAll returns
+			if f := x.Call.StaticCallee(); f != nil && f.String() == "io.LimitReader" && len(x.Call.Args) == 2 && x.Call.Args[1] == v {
+				for _, lr := range *x.Referrers() {
+					if ra, ok := lr.(*ssa.Call); ok {
+						if rf := ra.Call.StaticCallee(); rf != nil && rf.String() == "io.ReadAll" {
+							set(6, "len("+containerDesc(ra, recv, 0)+")")
+						}
+					}
+					if mi, ok := lr.(*ssa.MakeInterface); ok {
+						for _, lr2 := range *mi.Referrers() {
+							if ra, ok := lr2.(*ssa.Call); ok {
+								if rf := ra.Call.StaticCallee(); rf != nil && rf.String() == "io.ReadAll" {
+									set(6, "len("+containerDesc(ra, recv, 0)+")")
+								}
+							}
+						}
+					}
+				}
+			}
 		case *ssa.BinOp:
 			other := x.Y
 			if other == v {
@@ -216,6 +246,11 @@ func readDesc(v ssa.Value, recv ssa.Value, loops []*Loop, depth int) string {
 							if mu, ok := in.(*ssa.MapUpdate); ok {
 								if f, base := fieldLoad(mu.Map); f != nil && base == recv && innermostLoopOf(loops, b) == l {
 									set(2, "len("+f.Name()+")")
+								}
+							}
+							if call, ok := in.(*ssa.Call); ok && innermostLoopOf(loops, b) == l {
+								if bi, ok := call.Call.Value.(*ssa.Builtin); ok && bi.Name() == "append" {
+									set(2, "len("+containerDesc(call, recv, 0)+")")
 								}
 							}
 						}
@@ -267,6 +302,8 @@ func serSequence(p *Prog, fn *ssa.Function, write bool) []serTok {
 			toks = append(toks, serTok{"Raw", writeDesc(call.Call.Args[1], recv, loops, 0), d, call.Pos()})
 		case callee != nil && !write && callee.String() == "io.ReadFull":
 			toks = append(toks, serTok{"Raw", containerDesc(call.Call.Args[1], recv, 0), d, call.Pos()})
+		case callee != nil && !write && callee.String() == "io.ReadAll":
+			toks = append(toks, serTok{"Raw", containerDesc(call, recv, 0), d, call.Pos()})
 		}
 	}
 	sort.SliceStable(toks, func(i, j int) bool { return toks[i].Pos < toks[j].Pos })
